@@ -11,7 +11,7 @@ def prep_verif(ver):
     """scratch /verif for a run against a scratch repo: the committed findings, witnesses and bounded stand-ins"""
     shutil.copy(os.path.join(ROOT, "known_findings.json"), ver)
     shutil.copytree(os.path.join(ROOT, "findings"), os.path.join(ver, "findings"))
-    for extra in ("bounded.json", "undecided.json"):
+    for extra in ("bounded.json", "undecided.json", "sweep_baseline.json"):
         if os.path.exists(os.path.join(ROOT, extra)):
             shutil.copy(os.path.join(ROOT, extra), ver)
     if os.path.isdir(os.path.join(ROOT, "bounded")):
